@@ -79,6 +79,8 @@ impl BarState {
 
         if let Reset::All = mode {
             self.state.pos.reset(now);
+            // The position is back at zero: so is the step count the estimator measures from
+            self.state.est = Estimator::new(now);
             self.state.status = Status::InProgress;
 
             for tracker in self.style.format_map.values_mut() {
